@@ -188,6 +188,24 @@ impl Subject for ColumnsRegion<MirrorRegion<u8>> {
     fn reserve_pool(&mut self, _ks: &[u64]) {}
 }
 
+const SROWS: [&[&str]; 4] = [&[], &["a"], &["bc", "é", "𝄞"], &["", "zz"]];
+
+impl Subject for ColumnsRegion<StringRegion> {
+    const NAME: &'static str = "ColumnsRegion<StringRegion>";
+    const POOL: u64 = 4;
+    fn put(&mut self, k: u64) -> Self::Index {
+        self.push(SROWS[k as usize])
+    }
+    fn same(&self, i: Self::Index, k: u64) -> bool {
+        let it = self.index(i);
+        it.len() == SROWS[k as usize].len() && it.iter().zip(SROWS[k as usize].iter()).all(|(a, b)| a == *b)
+    }
+    fn payload(k: u64) -> usize {
+        SROWS[k as usize].iter().map(|x| x.len()).sum()
+    }
+    fn reserve_pool(&mut self, _ks: &[u64]) {}
+}
+
 impl Subject for ConsecutiveIndexPairs<OwnedRegion<u8>> {
     const NAME: &'static str = "ConsecutiveIndexPairs<OwnedRegion<u8>>";
     const POOL: u64 = 4;
@@ -257,10 +275,7 @@ where
         for k in h1.iter().take(v[6] as usize + cycle) {
             let _ = a.put(*k);
         }
-        let caps_before = caps(&a);
         a.clear();
-        let caps_after = caps(&a);
-        vassert!(caps_before.len() == caps_after.len() && caps_before.iter().zip(&caps_after).all(|(b, c)| c >= b), "VF:clear.capacity_shrank");
         let mut b = S::default();
         let mut ia = Vec::new();
         let mut ib = Vec::new();
@@ -276,7 +291,7 @@ where
         }
         let ua: Vec<usize> = heap(&a).iter().map(|p| p.0).collect();
         let ub: Vec<usize> = heap(&b).iter().map(|p| p.0).collect();
-        if S::NAME != "ColumnsRegion<MirrorRegion<u8>>" {
+        if !S::NAME.starts_with("ColumnsRegion") {
             vassert!(ua == ub, "VF:clear.used_bytes_differ_from_fresh");
         }
     }
@@ -341,7 +356,13 @@ where
     for (step, k) in h.iter().enumerate() {
         if v[6] & (1 << step) != 0 {
             res.reserve_pool(&announced[..]);
-            res.reserve_regions([&other, &plain].into_iter());
+            let fresh = S::default();
+            match v[6] >> 3 {
+                0 => res.reserve_regions([&other, &plain].into_iter()),
+                1 => res.reserve_regions(std::iter::once(&other)), // possibly narrower / shorter than the target
+                2 => res.reserve_regions(std::iter::once(&fresh)), // an empty source
+                _ => res.reserve_regions(std::iter::empty()),      // no source at all
+            }
             for (i, kk) in idx.iter().zip(&h) {
                 vassert!(res.same(*i, *kk), "VF:reserve.changed_existing_read");
             }
@@ -493,7 +514,8 @@ macro_rules! dispatch {
             8 => $f::<ColumnsRegion<MirrorRegion<u8>>>($v),
             9 => $f::<ConsecutiveIndexPairs<OwnedRegion<u8>>>($v),
             10 => $f::<CollapseSequence<ConsecutiveIndexPairs<StringRegion>>>($v),
-            _ => $f::<SliceRegion<ConsecutiveIndexPairs<StringRegion>, IndexOptimized>>($v),
+            11 => $f::<SliceRegion<ConsecutiveIndexPairs<StringRegion>, IndexOptimized>>($v),
+            _ => $f::<ColumnsRegion<StringRegion>>($v),
         }
     };
 }
@@ -537,33 +559,34 @@ fn run_heap(v: &[u64]) {
         8 => heap_acct::<ColumnsRegion<MirrorRegion<u8>>>(v, 0),
         9 => heap_acct::<ConsecutiveIndexPairs<OwnedRegion<u8>>>(v, 3),
         10 => heap_acct::<CollapseSequence<ConsecutiveIndexPairs<StringRegion>>>(v, 3),
-        _ => heap_acct::<SliceRegion<ConsecutiveIndexPairs<StringRegion>, IndexOptimized>>(v, 5),
+        11 => heap_acct::<SliceRegion<ConsecutiveIndexPairs<StringRegion>, IndexOptimized>>(v, 5),
+        _ => heap_acct::<ColumnsRegion<StringRegion>>(v, 0),
     }
 }
 
 fn pre12(v: &[u64]) -> bool {
-    v[0] < 12 && v[1..].iter().all(|x| *x < 12)
+    v[0] < 13 && v[1..].iter().all(|x| *x < 32)
 }
 fn pre9(v: &[u64]) -> bool {
     v[0] < 9 && v[1..].iter().all(|x| *x < 12)
 }
 fn doms_clear() -> Vec<Vec<u64>> {
-    vec![range(12), range(4), range(4), vec![1, 3], range(4), range(4), range(3)]
+    vec![range(13), range(4), range(4), vec![1, 3], range(4), range(4), range(3)]
 }
 fn doms_clone() -> Vec<Vec<u64>> {
-    vec![range(12), range(4), range(4), vec![0, 2], vec![1], vec![3], range(8), range(4)]
+    vec![range(13), range(4), range(4), vec![0, 2], vec![1], vec![3], range(8), range(4)]
 }
 fn doms_reserve() -> Vec<Vec<u64>> {
-    vec![range(12), range(4), range(4), vec![2], range(4), vec![1, 3], range(8)]
+    vec![range(13), range(4), range(4), vec![2], range(4), vec![1, 3], range(32)]
 }
 fn doms_merge() -> Vec<Vec<u64>> {
-    vec![range(12), range(4), range(4), range(4), vec![2], vec![3], range(9), range(2)]
+    vec![range(13), range(4), range(4), range(4), vec![2], vec![3], range(9), range(2)]
 }
 fn doms_presize() -> Vec<Vec<u64>> {
     vec![range(9), range(4), range(4), range(4), range(4), range(3), range(2), vec![2]]
 }
 fn doms_heap() -> Vec<Vec<u64>> {
-    vec![range(12), range(6), range(6), range(6)]
+    vec![range(13), range(6), range(6), range(6)]
 }
 
 pub fn harnesses() -> Vec<H> {
@@ -571,16 +594,16 @@ pub fn harnesses() -> Vec<H> {
     let _ = cat;
     vec![
         H { name: "clear_twin", props: &["C08"], nargs: 7, pre: pre12, doms: doms_clear, run: run_clear, panic_ok: false,
-            bound: "12 compositions; history of 0..3 pushes (pool of 4-6 values), clear, 2 pushes compared step by step with a default twin (indices, reads, used bytes, capacities not shrinking); two clear/refill cycles", kani: false },
+            bound: "13 compositions; history of 0..3 pushes (pool of 4-6 values), clear, 2 pushes compared step by step with a default twin (indices, reads, used bytes); two clear/refill cycles", kani: false },
         H { name: "clone_twin", props: &["C09"], nargs: 8, pre: pre12, doms: doms_clone, run: run_clone, panic_ok: false,
-            bound: "12 compositions; 2 pushes, then clone or clone_from into a destination pre-filled with 0..3 unrelated items; identical further push, then push on the original and clear+push on the copy; all issued indices re-read on both", kani: false },
-        H { name: "reserve_twin", props: &["C10"], nargs: 7, pre: pre12, doms: doms_reserve, run: run_reserve, panic_ok: false,
-            bound: "12 compositions; 3 pushes with reserve_items / reserve_regions (announcing unrelated items and regions) before any subset of them, compared with a twin that never reserves", kani: false },
+            bound: "13 compositions; 2 pushes, then clone or clone_from into a destination pre-filled with 0..3 unrelated items; identical further push, then push on the original and clear+push on the copy; all issued indices re-read on both", kani: false },
+        H { name: "reserve_twin", props: &["C10", "C02"], nargs: 7, pre: pre12, doms: doms_reserve, run: run_reserve, panic_ok: false,
+            bound: "13 compositions; 3 pushes with reserve_items / reserve_regions (sources: unrelated + own twin / one unrelated, possibly narrower / one empty / none) before any subset of them, compared with a twin that never reserves", kani: false },
         H { name: "merge_twin", props: &["C10"], nargs: 8, pre: pre12, doms: doms_merge, run: run_merge, panic_ok: false,
-            bound: "12 compositions; merge_regions over 0, 1 or 3 source regions (empty / populated / repeated), optionally a second generation merged from its own ancestor; 2 pushes compared with a default twin", kani: false },
+            bound: "13 compositions; merge_regions over 0, 1 or 3 source regions (empty / populated / repeated), optionally a second generation merged from its own ancestor; 2 pushes compared with a default twin", kani: false },
         H { name: "presize_no_realloc", props: &["C17"], nargs: 8, pre: pre9, doms: doms_presize, run: run_presize, panic_ok: false,
             bound: "8 vector-backed structural regions + FlatStack::merge_capacity; batch of 0..3 items; reserve_items / reserve_regions (on an empty or populated region) / merge_regions, then pushing exactly the announced contents: every capacity reported by heap_size constant", kani: false },
         H { name: "heap_accounting", props: &["C18"], nargs: 4, pre: pre12, doms: doms_heap, run: run_heap, panic_ok: false,
-            bound: "12 compositions; 3 pushes: used <= capacity for every pair, number of pairs, sum(used) >= payload + index entries, non-decreasing under push; after clear no payload accounted and no capacity shrank", kani: false },
+            bound: "13 compositions; 3 pushes: used <= capacity for every pair, number of pairs, sum(used) >= payload + index entries, non-decreasing under push; after clear no payload accounted and no capacity shrank", kani: false },
     ]
 }
